@@ -187,9 +187,13 @@ class DynamicLink(Link):
 
         if self.linker.needs_libs:
             linkers = self._get_linkers(env, self.input_langs)
+            # If a library is listed more than once (e.g. by the user and as
+            # the requirement of a static library), keep the *last* occurrence
+            # so that a static library always precedes the libraries it needs.
+            libs = opts.option_list(opts.lib(i) for i in reversed(self.libs))
             self._internal_options.collect(
                 (i.always_libs(i is self.linker) for i in linkers),
-                (opts.lib(i) for i in self.libs)
+                list(reversed(list(libs)))
             )
 
         if self.linker.needs_package_options:
